@@ -312,7 +312,7 @@ def do_replay(prop, path):
         info["path"] = path
         return klevel.replay_bundle(ctx, info)
     if info.get("level") == "O":
-        p = sh([os.path.join(VERIF, "bin/corpus"), "observe", "-plugin", ctx.plugin, "-out", os.path.join(ctx.work, "observe")], timeout=900)
+        p = sh([os.path.join(VERIF, "bin/corpus"), "observe", "-plugin", ctx.plugin, "-out", os.path.join(ctx.work, "observe"), info["mode"]], timeout=900)
         for o in json.loads(p.stdout.decode()):
             if o["name"] == info["name"] and o["mode"] == info["mode"] and o.get("failures"):
                 print(json.dumps(o["failures"]))
